@@ -25,7 +25,7 @@ ID = "C12"
 LEVEL = "fault_enumeration"
 TECHNIQUE = "deterministic simulation with message-level fault injection: a catalogue of hostile-but-well-formed client messages injected at every position of seeded sessions, per target vector kind, over the real TCP handler, the real TTY handler (simulated thread pool) and direct router calls; survival, state, liveness of the sending and of an observing connection checked afterwards"
 RULE = ("scenario = generated deployment x seeded session of valid traffic (handshakes, writes, device updates) x ONE hostile message "
-        "(catalogue entry x target vector kind) injected at a chosen step index x transport {tcp, tty, direct} x network knobs; quick tier "
+        "(catalogue entry x target vector kind x layout: one line, or pretty-printed with line breaks and blank lines) injected at a chosen step index x transport {tcp, tty, direct} x network knobs; quick tier "
         "enumerates catalogue x kind x transport round-robin over run indices; distinct = (catalogue entry, target kind, transport, position "
         "class); non-trivial = the hostile message was actually delivered to the server")
 COMPONENTS = dict(c01.COMPONENTS, real=c01.COMPONENTS["real"] + ["indi.transport.server.tty (TTY, ConnectionHandler) on SimPool", "aiofiles wrappers"],
@@ -206,6 +206,18 @@ def hostile(rng, entry, dev, v):
     raise ValueError(entry)
 
 
+def relayout(xml, rng):
+    """The same XML as a pretty printer (or a person typing into the TTY channel) would lay it out: line breaks, indentation and
+    BLANK lines between the elements, before and after the message. White space between tags is not content."""
+    sep = rng.choice(["\n", "\n\n", "\n  ", "\r\n\r\n", "\n\n\n    "])
+    out = xml.replace("><", ">" + sep + "<")
+    if rng.random() < 0.5:
+        out = rng.choice(["\n", "\n\n", "\r\n"]) + out
+    if rng.random() < 0.3:
+        out = out.rstrip("\n") + "\n\n"
+    return out
+
+
 def generate(seed, tier, index):
     rng = random.Random(seed)
     G.SPICY_NAMES[0] = False
@@ -243,6 +255,9 @@ def generate(seed, tier, index):
     pos = rng.randint(1, len(session))
     h = hostile(rng, entry, specs[0]["name"], tv)
     h["entry"] = h.get("entry", entry)
+    if rng.random() < 0.35 and entry != "raw_bytes":
+        h["xml"] = relayout(h["xml"], rng)
+        h["relayout"] = True
     steps = session[:pos] + [{"op": "hostile", **h}] + session[pos:]
     more = rng.randint(0, 2) if thorough else 0
     for _ in range(more):
@@ -278,14 +293,17 @@ class Sender:
         elif self.kind == "tty":
             self.stack.stdin_file.feed(xml if xml.endswith("\n") else xml + "\n")
         else:
-            msg = IndiMessage.from_string(xml)
+            try:
+                msg = IndiMessage.from_string(xml)
+            except Exception:
+                return "parser_rejects"  # (the harness's own parse: nothing reached the router)
             sim.do(self.stack.router.process_message, msg, self.direct_sender)
 
     def received(self):
         if self.kind == "tcp":
             return self.peer.text
         if self.kind == "tty":
-            return self.stack.stdout_file.text
+            return self.stack.stdout_file.flushed_text
         return None
 
     def alive(self):
@@ -349,13 +367,17 @@ def execute(scen):
                     probes["direct_world_parser_rejects"] = probes.get("direct_world_parser_rejects", 0) + 1
                     continue
                 try:
-                    sender.send(st["xml"])
+                    if sender.send(st["xml"]) == "parser_rejects":
+                        probes["direct_world_parser_rejects"] = probes.get("direct_world_parser_rejects", 0) + 1
+                        continue
                 except BaseException as e:  # noqa
                     viol.append({"clause": "C12.raise", "detail": f"Router.process_message raised {type(e).__name__}: {e}; {ctx}", "facts": facts})
                     break
             else:
                 sender.send(st["xml"])
             faults[entry] = faults.get(entry, 0) + 1
+            if st.get("relayout"):
+                probes["message_laid_out_with_blank_lines:" + transport] = probes.get("message_laid_out_with_blank_lines:" + transport, 0) + 1
             delivered += 1
             sim.settle()
             if watchdog.S.tripped:
